@@ -178,6 +178,18 @@ CLAIMED = {
          'D49 (per-node delays of merged nodes) are pinned; default backend.',
     technique='TLA+ solver/history spec (TLC), exact replay, TLC trace validation of recorded history logs, recording hist callable',
     ref='6/C10'),
+
+ 'C11': dict(
+    text='spec/Gamma.tla: layer M is the explicitly written augmented ODE (own chain of n = round((d/s)^2) stages of rate n/d per edge, '
+         'dde_approx = n without spread) and its integer Euler iterates; layer P the grouping of slots into shared chains; TLC checks '
+         'EachEdgeOwnKernel and MeanDelayIsD and that two historic deviations violate them. Every ordered edge list (<= 2 edges, all '
+         '11 kernels incl. equal order / different rate, equal kernel from different spreads, rounding up across .5, undelayed '
+         'siblings; three-edge A,A,B patterns) is run with vectorize on/off at three time scales and compared exactly; Connectivity '
+         'form and the adaptive solver are compared with the explicit linear chain integrated by the harness.',
+    note='Kernels with integer rate and delay >= 2 steps (a delay of one step is neglected by design; (d/s)^2 < 1.5 needs a non-integer rate '
+         'and is only covered by the adaptive comparison); D36 / D50 (loud) matched by class.',
+    technique='TLA+ augmented-ODE spec (TLC computes exact iterates), exact replay through run(), adaptive comparison with the explicit chain',
+    ref='6/C11'),
 }
 
 NOT_YET = 'check not built yet in this round (planned in DESIGN.md section 6); not claimed'
